@@ -472,6 +472,13 @@ def marker_failures(cases, impl):
     import re as _re
     out = []
     for c, o in zip(cases, impl):
+        if o.startswith("PANIC-UNCAUGHT"):
+            try:
+                msg = bytes.fromhex(o.split(" ")[1]).decode(errors="replace")
+            except Exception:
+                msg = o[:300]
+            out.append(Failure(c, "the implementation panicked on this input: " + msg[:600]))
+            continue
         for m in ("WIRE-DIFFERS", "INCONSISTENT"):
             hm = m.encode().hex()
             if m in o:
